@@ -176,6 +176,26 @@ def presolve_equalities(F, env):
                 break
 
 
+CURRENT_INTERP = [None]
+
+
+def _field_role(obj, k):
+    """'cached': the name of a functools.cached_property of the object's class (an entry of __dict__ that is a cache);
+    'dead': a private field that no code of the class assigns any more (the representation changed: what it held is now
+    obtained some other way, and the obligations on the public accessors are what constrains that); None otherwise"""
+    I = CURRENT_INTERP[0]
+    if I is None or getattr(obj, "cls", None) is None:
+        return None
+    try:
+        if obj.cls.find("cached", k, I.classes) is not None:
+            return "cached"
+        if k.startswith("_") and not k.startswith("__") and not I.class_assigns(obj.cls, k) and obj.cls.node is not None:
+            return "dead"
+    except Exception:
+        return None
+    return None
+
+
 def hypotheses_hold(F, env, conds_checked=False):
     """does the sampled point satisfy the hypotheses (ground conditions incl. the path condition, bounds on the array
     elements sampled so far)?  None: not evaluable (then the point is not used as a witness)"""
@@ -298,6 +318,13 @@ def compare(got, exp, F, name, out, hyps=()):
                 continue
             if k in getattr(got, "cf", {}) or k in getattr(exp, "cf", {}):
                 continue        # a cache field settled by Interp.complete_fixture: judged by contract.cache_coherence, not by equality
+            role = _field_role(got, k)
+            if role == "cached":
+                continue        # a functools.cached_property entry: judged by contract.cache_coherence
+            if role == "dead" and k in exp.fields:
+                out.append(Clause("%s.%s" % (name, k), "discharged", "normaliser",
+                                  "field %s is not maintained by the current source any more (representation changed): not compared" % k))
+                continue
             if k not in got.fields or k not in exp.fields:
                 if k in got.fields and k in getattr(got, "cf", {}):
                     continue        # a cache field completed by Interp.complete_fixture: judged by contract.cache_coherence
@@ -417,6 +444,14 @@ def compare_terms(g, e, F, name, out, hyps=(), t0=None):
         smt.STATS["normaliser"] += 1
         out.append(Clause(name, "discharged", "normaliser+facts", secs=time.time() - t0))
         return
+    try:
+        g3, e3 = T.reduce_rcp(g2), T.reduce_rcp(e2)
+        if T.equal(g3, e3):
+            smt.STATS["normaliser"] += 1
+            out.append(Clause(name, "discharged", "normaliser+rcp", secs=time.time() - t0))
+            return
+    except (RecursionError, TypeError):
+        pass
     st, info = smt.prove(T.cmp_cond("==", g, e), F, hyps)
     if st == "proved":
         out.append(Clause(name, "discharged", info["backend"], secs=time.time() - t0))
